@@ -9,7 +9,7 @@ From SKV Require Import Params Base.Lex Conc.Oracle Conc.CommitSeq Conc.OracleSp
 Import ListNotations.
 Local Open Scope N_scope.
 
-(* the generated operators are `<`, `>`, `>=`, `>`, `>=`, `==` as the proofs assume; first seq = 1 *)
+(* the generated operators are `<`, `>`, `>=`, `>`, `>=`, `==`, `==` as the proofs assume; first seq = 1 *)
 Theorem C04_params_side_conditions : oracle_params_ok.
 Proof. exact params_ok. Qed.
 
@@ -23,26 +23,20 @@ Proof. exact (check_retry fp). Qed.
 Theorem C04_check_conflict_iff : check_conflict_iff_stmt fp.
 Proof. exact (check_conflict_iff fp). Qed.
 
-(* OracleSound over all histories without WAL/apply failures (crate's rollback) *)
-Theorem C04_oracle_sound_no_failures : oracle_sound_no_failures_stmt fp ORACLE_GC_INTERVAL.
-Proof. exact (oracle_sound_no_failures fp ORACLE_GC_INTERVAL). Qed.
+(* OracleSound after EVERY history: failed commits (WAL/apply failure + rollback), restores, every
+   GC position, write-only and unregistered committers *)
+Theorem C04_oracle_sound : oracle_sound_stmt fp ORACLE_GC_INTERVAL.
+Proof. exact (oracle_sound fp ORACLE_GC_INTERVAL). Qed.
 (* the pruning mark never passes a registered open transaction, nor `visible` (no restore) *)
 Theorem C04_watermark_ok : watermark_ok_stmt fp ORACLE_GC_INTERVAL.
 Proof. exact (watermark_ok_run fp ORACLE_GC_INTERVAL). Qed.
 
-(* first committer wins: histories without failures; every GC position, write-only and
-   unregistered committers, restores included *)
-Theorem C04_no_lost_update_no_failures : no_lost_update_no_failures_stmt fp ORACLE_GC_INTERVAL.
-Proof. exact (no_lost_update_no_failures fp ORACLE_GC_INTERVAL). Qed.
+(* first committer wins on ALL histories, failed commits included (F13 repaired: rollback puts the
+   overwritten stamp back) *)
+Theorem C04_no_lost_update : no_lost_update_stmt fp ORACLE_GC_INTERVAL.
+Proof. exact (no_lost_update fp ORACLE_GC_INTERVAL). Qed.
 
-(* what the fix must achieve: with a rollback that restores the previous stamp, first committer
-   wins on ALL histories, failures included *)
-Theorem C04_oracle_sound_fixed : oracle_sound_fixed_stmt fp ORACLE_GC_INTERVAL.
-Proof. exact (oracle_sound_fixed fp ORACLE_GC_INTERVAL). Qed.
-Theorem C04_no_lost_update_fixed : no_lost_update_fixed_stmt fp ORACLE_GC_INTERVAL.
-Proof. exact (no_lost_update_fixed fp ORACLE_GC_INTERVAL). Qed.
-
-(* no false conflict (fp injective on the history's keys), any history, both rollbacks *)
+(* no false conflict (fp injective on the history's keys), any history *)
 Theorem C04_no_false_conflict : no_false_conflict_stmt fp ORACLE_GC_INTERVAL.
 Proof. exact (no_false_conflict fp ORACLE_GC_INTERVAL). Qed.
 (* a transaction registered at begin is never answered Retry (no restore in the history) *)
@@ -64,24 +58,20 @@ Theorem C04_refused_has_no_effect : refused_has_no_effect_stmt fp ORACLE_GC_INTE
 Proof. exact (refused_has_no_effect fp ORACLE_GC_INTERVAL). Qed.
 End AnyFingerprint.
 
-(* REFUTED on the model of the pinned code (finding F13): with a failed commit in the history a
-   lost update exists — rollback removes the entry instead of restoring the previous stamp *)
-Theorem C04_no_lost_update_refuted : lost_update toy_fp ORACLE_GC_INTERVAL false.
-Proof. exact no_lost_update_refuted. Qed.
-(* the same history is handled by the repaired rollback *)
-Example C04_witness_refused_when_fixed :
-  step_outcome toy_fp ORACLE_GC_INTERVAL true (run toy_fp ORACLE_GC_INTERVAL true lu_steps c0) (SCommit 3 [kA] false) = OConflict.
-Proof. exact lu_steps_fixed_refused. Qed.
+(* the history that lost an update before F13 was repaired: the overlapping committer is refused *)
+Example C04_f13_history_refused :
+  step_outcome toy_fp ORACLE_GC_INTERVAL (run toy_fp ORACLE_GC_INTERVAL lu_steps c0) (SCommit 3 [kA] false) = OConflict.
+Proof. exact lu_steps_refused. Qed.
 
-(* REFUTED (new finding): registered_never_retry does not survive a restore that rewinds the
+(* REFUTED (finding C04-N1, open): registered_never_retry does not survive a restore that rewinds the
    counter below the start of a transaction that is still open: after that transaction commits at
    a GC firing, kept_since > visible and every later transaction is answered Retry *)
-Theorem C04_fresh_retry_after_restore : fresh_retry_after_restore toy_fp ORACLE_GC_INTERVAL false.
+Theorem C04_fresh_retry_after_restore : fresh_retry_after_restore toy_fp ORACLE_GC_INTERVAL.
 Proof. exact fresh_retry_after_restore_holds. Qed.
 
 (* hypotheses are satisfiable: an ordinary history ends in acceptance, a conflicting one in Conflict *)
 Example C04_example_outcomes :
-  outcomes toy_fp ORACLE_GC_INTERVAL false
+  outcomes toy_fp ORACLE_GC_INTERVAL
     [SBegin 1 BRW; SBegin 2 BWO; SCommit 1 [kA; kB] false; SCommit 2 [kB] false; SBegin 3 BRW; SCommit 3 [kB] false] c0
   = [OOk; OOk; OOk; OConflict; OOk; OOk].
 Proof. vm_compute. reflexivity. Qed.
